@@ -103,7 +103,8 @@ def game_strategy(draw):
     game = {"balls_per_game": draw(st.integers(1, 3)),
             "ball_save": draw(st.one_of(st.none(), *[st.fixed_dictionaries({
                 "active_time": st.sampled_from(["2s", "8s", "30s", "120s"]), "auto_launch": st.booleans(),
-                "balls_to_save": st.sampled_from([1, 2, -1, -1]), "eject_delay": st.sampled_from([0, "700ms", "3s", "3s"]),
+                "balls_to_save": st.sampled_from([1, 2, -1, -1]), "eject_delay": st.sampled_from([0, "700ms", "3s", "3s", "event"]),
+                "only_last_ball": st.sampled_from([False, False, True]),
                 "use_lock": st.booleans()})] * 3)),
             "multiball": draw(st.one_of(st.none(), st.fixed_dictionaries({
                 "ball_count": st.integers(2, 3), "ball_count_type": st.sampled_from(["total", "add"]),
@@ -112,7 +113,7 @@ def game_strategy(draw):
     ops = [st.just(["start"])] * 3 + [st.tuples(st.just("drain"), st.sampled_from([50, 300, 1000, 2500])).map(list)] * 5
     ops += [st.tuples(st.just("drain2"), st.sampled_from([100, 600, 900, 1500, 2000])).map(list)] * 3
     ops += [st.just(["pf_hit"])] * 2 + [st.just(["settle"]), st.just(["mb_start"]), st.just(["mb_start"]),
-                                          st.just(["mb_add"]), st.just(["bs_enable"]), st.just(["early_save"])]
+                                          st.just(["mb_add"]), st.just(["bs_enable"]), st.just(["early_save"]), st.just(["bs_eject"])]
     if topo["lock"]:
         ops += [st.tuples(st.just("lock_shot"), st.sampled_from([50, 400, 1500])).map(list)] * 3
     if topo["launcher"]["mechanical"]:
@@ -159,7 +160,12 @@ def game_config(topo, game):
     if bs:
         cfg["ball_saves"] = {"bs": {"active_time": bs["active_time"], "enable_events": "ball_started, ev_bs_enable",
                                     "early_ball_save_events": "ev_early_save", "auto_launch": bs["auto_launch"],
-                                    "balls_to_save": bs["balls_to_save"], "eject_delay": bs["eject_delay"]}}
+                                    "balls_to_save": bs["balls_to_save"],
+                                    "only_last_ball": bool(bs.get("only_last_ball"))}}
+        if bs["eject_delay"] == "event":
+            cfg["ball_saves"]["bs"]["delayed_eject_events"] = "ev_bs_eject"      # saved balls wait for this event
+        else:
+            cfg["ball_saves"]["bs"]["eject_delay"] = bs["eject_delay"]
         if bs["use_lock"] and topo["lock"]:
             cfg["ball_saves"]["bs"]["ball_locks"] = "bd_lock"
     if mb:
@@ -618,7 +624,7 @@ def run(case, focus=None):
                     saves.append(rig.now)
                     w.classes.add("ball saved")
                     if len(saves) > 1 and game["ball_save"]["eject_delay"] and \
-                            saves[-1] - saves[-2] < {"700ms": 0.7, "3s": 3.0}[game["ball_save"]["eject_delay"]]:
+                            saves[-1] - saves[-2] < {"700ms": 0.7, "3s": 3.0, "event": 0}[game["ball_save"]["eject_delay"]]:
                         w.classes.add("two ball saves within the eject delay")
             m.events.add_handler("ball_save_bs_saving_ball", saving)
         if "bd_lock" in mdev:
@@ -636,6 +642,8 @@ def run(case, focus=None):
                 return topo["launcher"]["mechanical"] and la.content > 0 and not la.leaving and \
                     mdev["bd_launcher"].state not in ("idle", "eject_broken") and "bd_launcher" not in broken
             for _ in range(60):
+                if game and game.get("ball_save") and game["ball_save"]["eject_delay"] == "event":
+                    m.events.post("ev_bs_eject")      # whoever holds saved balls back releases them eventually
                 guard = 0
                 while w.busy() and guard < 400:
                     rig.advance(0.25)
@@ -765,7 +773,7 @@ def run(case, focus=None):
                 w.sw("s_start", 0)
                 if m.game:
                     w.classes.add("game running")
-            elif kind in ("mb_start", "mb_add", "bs_enable", "early_save"):
+            elif kind in ("mb_start", "mb_add", "bs_enable", "early_save", "bs_eject"):
                 applied = bool(m.game)
                 if applied:
                     m.events.post("ev_" + kind)
